@@ -19,6 +19,7 @@
 #include "qsopt_mpq.h"
 
 extern int g_old_objsense;
+extern const mpq_t *g_bound_ptr; extern int g_bound_sense, g_bound_calls;
 extern int g_lib_rv, g_lib_called, g_cache_freed, g_basis_freed, g_basis_ok, g_cache_ok, g_factorok_out, g_factorok_in;
 
 #define QS_OK(p) ((p)->qslp != 0 && (p)->lp != 0 && (p)->lp->O == (p)->qslp && ((p)->factorok == 0 || (p)->factorok == 1))
@@ -79,7 +80,7 @@ __CPROVER_ensures(p != 0 ==> g_factorok_in == OLD(p->factorok));
 /* objective sense: illegal value rejected; a real change drops the cache; same sense is a no-op */
 int contract_QSchange_objsense(mpq_QSdata *p, int newsense)
 __CPROVER_requires(p == 0 || QS_OK(p))
-__CPROVER_assigns(g_lib_called, g_cache_freed)
+__CPROVER_assigns(g_lib_called, g_cache_freed, g_bound_ptr, g_bound_sense, g_bound_calls)
 __CPROVER_requires(p == 0 || g_old_objsense == p->qslp->objsense)
 __CPROVER_assigns(p != 0 && (newsense == QS_MIN || newsense == QS_MAX) && g_old_objsense != newsense: p->cache, p->qstatus, p->qslp->objsense)
 __CPROVER_frees(p != 0 && (newsense == QS_MIN || newsense == QS_MAX) && g_old_objsense != newsense: p->cache)
